@@ -105,6 +105,11 @@ func c10streams(thorough bool) []*c10stream {
 	out = append(out, s3)
 	s5 := &c10stream{name: "S5:lib W65280(compressible) C", data: libWriter([]sop{{Op: "W", N: BS}}, false), sparse: true}
 	out = append(out, s5)
+	// a member that inflates to exactly 64 KiB (legal BGZF that the library's own writer, which
+	// cuts at 65280, never produces): 40000 incompressible bytes then a compressible tail
+	p6 := append(payload(true, 0, 40000), payload(false, 40000, 65536-40000)...)
+	d6, _ := refimpl.EncodeFile([][]byte{p6, payload(false, 65536, 3)}, 1, true)
+	out = append(out, &c10stream{name: "S6:ref [65536 3]+EOF", data: d6, sparse: true})
 	// BAM by the library's writer
 	h, ref := c10samHeader()
 	recs := c10records(ref)
@@ -320,7 +325,7 @@ func c10one(c *Ctx, s *c10stream, cas c10case) (nontrivial bool) {
 }
 
 func c10(c *Ctx) {
-	c.Rule = "streams: BGZF S1 (library writer, blocks 5+4), S2 (2x300 bytes), S4 (independent encoder, blocks [5 0 4]), S3/S5 (one full 65280-byte block, incompressible + 1 byte / compressible; mutated at every position within 24 bytes of a member boundary or of the ends and at every 61st (thorough 7th) position elsewhere); BAM B1 (bam.Writer, 3 records) and B2 (same stream re-blocked so that a record ends at a block end, one spans a boundary and one has its length prefix split), B3 (a block ends right after a record's length prefix). Every truncation length 0..len-1 and every single-byte substitution (quick: b^1, b^0x80, ^b, 0, 0xff, 17, 18, b-1, b+1; thorough: all 255 other values) x rd {1,2}. Oracle: truncation -> a prefix of the original bytes/records then an error, a clean io.EOF only when the cut is at a member boundary (BAM: that is also a record boundary), and then HasEOF is false; substitution -> an error or exactly the original data. Non-trivial: every mutation that changes the stream."
+	c.Rule = "streams: BGZF S1 (library writer, blocks 5+4), S2 (2x300 bytes), S4 (independent encoder, blocks [5 0 4]), S3/S5 (one full 65280-byte block, incompressible + 1 byte / compressible) and S6 (independent encoder, a member inflating to exactly 65536 bytes, then 3 bytes) (these three mutated at every position within 24 bytes of a member boundary or of the ends and at every 61st (thorough 7th) position elsewhere); BAM B1 (bam.Writer, 3 records) and B2 (same stream re-blocked so that a record ends at a block end, one spans a boundary and one has its length prefix split), B3 (a block ends right after a record's length prefix). Every truncation length 0..len-1 and every single-byte substitution (quick: b^1, b^0x80, ^b, 0, 0xff, 17, 18, b-1, b+1, and all 255 other values for the eight framing bytes XLEN..BSIZE of every member; thorough: all 255 other values everywhere except in the sparse streams) x rd {1,2}. Oracle: truncation -> a prefix of the original bytes/records then an error, a clean io.EOF only when the cut is at a member boundary (BAM: that is also a record boundary), and then HasEOF is false; substitution -> an error or exactly the original data. Non-trivial: every mutation that changes the stream."
 	streams := c10streams(c.Thorough)
 	find := func(n string) *c10stream {
 		for _, s := range streams {
@@ -380,7 +385,13 @@ func c10(c *Ctx) {
 				}
 				b := s.data[at]
 				vals := []int{int(b ^ 1), int(b ^ 0x80), int(^b), 0, 0xff, 17, 18, int(b) - 1, int(b) + 1}
-				if c.Thorough && !s.sparse {
+				framing := false // XLEN, the BC subfield header and BSIZE of a member: every value in both tiers
+				for mb := range s.bounds {
+					if at >= mb+10 && at < mb+18 {
+						framing = true
+					}
+				}
+				if c.Thorough && !s.sparse || framing {
 					vals = vals[:0]
 					for v := 0; v < 256; v++ {
 						vals = append(vals, v)
